@@ -1,5 +1,6 @@
 (* DurationProofs.v - the numbers of the report (DurationDefs) are the specified ones (DurationSpec). *)
-From Robsd Require Import Report.DurationSpec Report.ReportProofs Base.DecimalProofs Base.Sort Inv.LsSpec Inv.LsProofs.
+From Robsd Require Import Report.DurationSpec Report.ReportProofs Base.DecimalProofs Base.Sort Inv.LsSpec Inv.LsProofs Step.StepLex.
+From RobsdGen Require Import Gen_Step.
 From Coq Require Import Lia Decimal DecimalZ Znumtheory Sorting.Sorted Sorting.Permutation.
 Local Open Scope N_scope.
 
@@ -88,6 +89,18 @@ Lemma sh_select_pos rows k : sh_select rows (Z.of_nat k + 1) = nth_error rows k.
 Proof.
   unfold sh_select. destruct (Z.ltb_spec 0 (Z.of_nat k + 1)); [|lia].
   replace (Z.of_nat k + 1 - 1)%Z with (Z.of_nat k) by lia. now rewrite Nat2Z.id.
+Qed.
+
+(* step_eval <i> is robsd-step -R -i <i> (C01's select_row) on the rows' report view *)
+Lemma sh_select_is_robsd_step rows i :
+  (id_min <= i <= id_max)%Z ->
+  sh_select (map view rows) i = omap view (select_row rows (ById (render_Z i))).
+Proof.
+  intros Hi. unfold select_row, sh_select.
+  rewrite (clean_nonul _ (clean_render i)), (strtonum_render id_min id_max i Hi), map_length.
+  destruct (0 <? i)%Z; [apply nth_error_map|].
+  destruct (i <? 0)%Z; [|reflexivity].
+  destruct (- i <=? Z.of_nat (List.length rows))%Z; [apply nth_error_map|reflexivity].
 Qed.
 
 Lemma skipn_nth {A} (l : list A) k x : nth_error l k = Some x -> skipn k l = x :: skipn (S k) l.
